@@ -52,6 +52,10 @@ SysOK ==
     /\ (SyncWal /\ e.e = "EnactBegin" /\ e.a[2] = 0) => \A p \in sUnsynced : p[2] # e.a[1]
     /\ (SyncData /\ e.e = "LogTruncate") => \A p \in sNeed : p[1] # LogName(e.a[1])
     /\ (SyncData /\ e.e = "Sys" /\ e.call \in {"ftruncate0", "unlink"} /\ e.log) => \A p \in sNeed : p[1] # e.f
+    \* recovery: a log file found at open may hold records that were written but never synced; it is synced by THIS
+    \* process before its records are replayed (marker <<file, 0>>; the model-level guard is the necessity config
+    \* replay_unsynced of Pdb.tla)
+    /\ (SyncWal /\ e.e = "ReplayFile") => <<LogName(e.a[1]), 0>> \in sUnsynced
 
 SysUpdate ==
     LET e == Rec[l] IN
@@ -59,7 +63,11 @@ SysUpdate ==
             /\ sUnsynced' = sUnsynced \cup {<<LogName(e.a[2]), e.a[1]>>}
             /\ UNCHANGED <<sDirty, sNeed>>
       [] e.e = "Sys" /\ e.call \in {"fdatasync", "fsync"} /\ e.ret = 0 ->
-            /\ sUnsynced' = {p \in sUnsynced : p[1] # e.f}
+            /\ sUnsynced' = {p \in sUnsynced : p[1] # e.f} \cup (IF e.log THEN {<<e.f, 0>>} ELSE {})
+            /\ UNCHANGED <<sDirty, sNeed>>
+      \* (the process that synced is gone: its markers go; nothing is unsynced at a clean close)
+      [] e.e = "Closed" ->
+            /\ sUnsynced' = {}
             /\ UNCHANGED <<sDirty, sNeed>>
       [] e.e = "Sys" /\ e.call = "msync" /\ e.ret = 0 ->
             /\ sDirty' = sDirty \ {e.f}
